@@ -15,7 +15,18 @@ Theorem C09_viterbi_optimal e0 es :
 Proof. exact (viterbi_optimal e0 es). Qed.
 Print Assumptions C09_viterbi_optimal.
 
+
 Example C09_nonvacuous_run : estimate ex_e0 [ex_e1; ex_e2] = ([0; 0; 1]%nat, fst (snd (estimate ex_e0 [ex_e1; ex_e2]), 0)).
 Proof. vm_compute. reflexivity. Qed.
 Example C09_nonvacuous_hyp : nonempty_states ex_e0 [ex_e1; ex_e2].
 Proof. split; [simpl; lia | repeat constructor; simpl; lia]. Qed.
+
+From Coq Require Import Reals.
+From TL Require Import Proofs.Hmm_likelihood.
+(* "maximum joint likelihood": over the reals, a smaller sum of -log likelihoods is a larger product of likelihoods and conversely
+   (positive factors: the implementation adds 1e-300 before taking the logarithm), so the cost-minimal sequence of
+   C09_viterbi_optimal is a likelihood-maximal one *)
+Theorem C09_cost_order_is_likelihood_order p q : positive p -> positive q ->
+  (lcost p <= lcost q <-> lprod q <= lprod p)%R.
+Proof. exact (cost_order_is_likelihood_order p q). Qed.
+Print Assumptions C09_cost_order_is_likelihood_order.
